@@ -347,16 +347,18 @@ type ScenCfg struct {
 	NoRest     bool // do not emit plain tokens that would become remaining arguments
 	MaxOccPer  int
 	PosTextFn  func(r *Rand, a *PosArg) string
+	PUnknown   int  // % of steps that emit an unknown option token (only under IgnoreUnknown: passed through)
 	Focus      *Opt // an option the scenario should mention FocusN times
 	FocusN     int
 	Target     *Cmd // the command the scenario should end in (nil = random walk)
 }
 
 type Scenario struct {
-	D     *Decl
-	Items []*Item
-	Exp   *Expect
-	Final *Cmd
+	D        *Decl
+	Items    []*Item
+	Exp      *Expect
+	Final    *Cmd
+	Unknowns int
 }
 
 type walker struct {
@@ -372,6 +374,7 @@ type walker struct {
 	items   []*Item
 	occCnt  map[*Opt]int
 	force   bool
+	unknowns int
 }
 
 func (w *walker) enter(c *Cmd) {
@@ -522,6 +525,19 @@ func GenScenario(r *Rand, d *Decl, cfg *ScenCfg) *Scenario {
 			w.bindPlain(tok)
 			continue
 		}
+		if cfg.PUnknown > 0 && d.Options&flags.IgnoreUnknown != 0 && r.Chance(cfg.PUnknown, 100) {
+			if len(w.pending) > 0 && w.pending[0].T.K != KString {
+				continue // it would be converted into a typed positional
+			}
+			if len(w.cur.Subs) > 0 && !w.cur.SubOptional && len(w.pending) == 0 {
+				continue // it would start the remaining arguments and so block the command word still due
+			}
+			tok := UnknownToken(r, d, w.scope)
+			w.items = append(w.items, &Item{Kind: IFault, Toks: []string{tok}, Note: "unknown option passed through"})
+			w.bindPlain(tok)
+			w.unknowns++
+			continue
+		}
 		x := r.Intn(100)
 		needCmd := len(w.cur.Subs) > 0 && !w.cur.SubOptional
 		if needCmd && r.Chance(9, 10) {
@@ -640,7 +656,7 @@ func GenScenario(r *Rand, d *Decl, cfg *ScenCfg) *Scenario {
 		}
 	}
 	w.exp.Chain = w.cur.Chain()
-	return &Scenario{D: d, Items: w.items, Exp: w.exp, Final: w.cur}
+	return &Scenario{D: d, Items: w.items, Exp: w.exp, Final: w.cur, Unknowns: w.unknowns}
 }
 
 // fillPending emits one plain token for the first pending positional.
@@ -801,4 +817,93 @@ func describeItems(d *Decl, items []*Item) []string {
 		out = append(out, fmt.Sprintf("%s %q", k, toks))
 	}
 	return out
+}
+
+// UnknownToken builds an option-shaped token whose name is not defined in scope sc: near misses of
+// declared names (case flip, prefix, one character appended/deleted/substituted, namespace dropped) or fresh names.
+func UnknownToken(r *Rand, d *Decl, sc *Scope) string {
+	for try := 0; try < 30; try++ {
+		var name string
+		long := r.Chance(2, 3)
+		if long {
+			var names []string
+			for n := range sc.Long {
+				names = append(names, n)
+			}
+			sortStrings(names)
+			if len(names) > 0 && r.Chance(3, 4) {
+				base := names[r.Intn(len(names))]
+				switch r.Intn(6) {
+				case 0:
+					name = flipCase(base)
+				case 1:
+					if len(base) > 1 {
+						name = base[:len(base)-1]
+					}
+				case 2:
+					name = base + "x"
+				case 3:
+					name = "x" + base
+				case 4:
+					if i := strings.LastIndex(base, d.nsDelim()); i >= 0 {
+						name = base[i+len(d.nsDelim()):]
+					} else {
+						name = "ns" + d.nsDelim() + base
+					}
+				default:
+					bs := []byte(base)
+					bs[r.Intn(len(bs))] = 'q'
+					name = string(bs)
+				}
+			} else {
+				name = fmt.Sprintf("zz%d", r.Intn(1000))
+			}
+			if name == "" || name[0] == '-' || strings.ContainsAny(name, "=") || sc.Long[name] != nil {
+				continue
+			}
+			if d.Options&flags.HelpFlag != 0 && name == "help" {
+				continue
+			}
+			switch r.Intn(3) {
+			case 0:
+				return "--" + name
+			case 1:
+				return "--" + name + "=" + fmt.Sprintf("v%d", r.Intn(100))
+			default:
+				return "--" + name + "="
+			}
+		}
+		pool := []rune("abcdefgijklmnopqrstuvwxyzABCDEFGHIJKLMNOPQRSTUVWXYZ0123456789éλ世")
+		ru := pool[r.Intn(len(pool))]
+		if sc.Short[ru] != nil || (d.Options&flags.HelpFlag != 0 && ru == 'h') {
+			continue
+		}
+		switch r.Intn(3) {
+		case 0:
+			return "-" + string(ru)
+		case 1:
+			return "-" + string(ru) + "=" + fmt.Sprintf("v%d", r.Intn(100))
+		default:
+			return "-" + string(ru) + fmt.Sprintf("val%d", r.Intn(100))
+		}
+	}
+	return "--zz-unknown"
+}
+
+func flipCase(s string) string {
+	bs := []byte(s)
+	changed := false
+	for i, b := range bs {
+		if b >= 'a' && b <= 'z' {
+			bs[i] = b - 32
+			changed = true
+		} else if b >= 'A' && b <= 'Z' {
+			bs[i] = b + 32
+			changed = true
+		}
+	}
+	if !changed {
+		return ""
+	}
+	return string(bs)
 }
